@@ -6,15 +6,29 @@ Open Scope Q_scope."""
 SKIPPED = [0]
 
 
-def cases(tier, rng, dist, focus=None):
+EXTRA = []      # names of further sources (oracle only, no Coq term): "exp" (C17 histories), "pifs" (C19), "npc" (C07 sim_npc), "wy" (C10)
+
+
+def _extra_mod(name):
+    import importlib
+    return importlib.import_module("harness.props." + {"exp": "c17", "pifs": "c19", "npc": "c07", "wy": "c10"}[name])
+
+
+def cases(tier, rng, dist, focus=None, extra=()):
     for c in CR.cases(tier, rng, dist, focus=focus):
         c["src"] = "core"; yield c
     for c in SR.cases(tier, rng, dist):
         c["src"] = "strat"; yield c
+    for name in extra:
+        m = _extra_mod(name)
+        for c in m.cases(tier, rng, dist):
+            if name == "npc" and c.get("f") != "sim":
+                continue
+            c["src"] = name; yield c
 
 
 def mod(c):
-    return CR if c["src"] == "core" else SR
+    return CR if c["src"] == "core" else SR if c["src"] == "strat" else _extra_mod(c["src"])
 
 
 def run(c):
@@ -26,10 +40,14 @@ def wrap(c, t):
 
 
 def to_coq(c, o):
+    if c["src"] not in ("core", "strat"):
+        return None
     return wrap(c, mod(c).to_coq(c, o))
 
 
 def extra_terms(c, o):
+    if c["src"] not in ("core", "strat"):
+        return []
     return [wrap(c, t) for t in mod(c).extra_terms(c, o)]
 
 
@@ -42,7 +60,7 @@ def nontrivial(c, o):
 
 
 def key(c):
-    return mod(c).key(c)
+    return c["src"] + ":" + mod(c).key({k: v for k, v in c.items() if k != "src"})
 
 
 def filtered_oracle(allowed):
